@@ -38,7 +38,8 @@ Variable g : list Q.
 Hypothesis Hd : desc g.
 Hypothesis Hne : g <> [].
 Hypothesis Hcov : covers g (eps_all hu cu).
-Hypothesis Hgap : gaps_ok w g.
+Hypothesis Hgap : gaps_ok w 0 g.
+Let z_le : 0 <= 0. Proof. lra. Qed.
 Let p := pta w hu cu g.
 Let h := pHn p.
 Let mx := match h with [] => 0 | x :: l => qmax_list x l end.
@@ -54,7 +55,7 @@ Proof.
   assert (Hi : (i < List.length (pT p))%nat) by (apply nth_error_Some; congruence).
   destruct (nth_error (pHh p) i) as [hh|] eqn:Eh; [|apply nth_error_None in Eh; lia].
   destruct (nth_error (pHc p) i) as [hc|] eqn:Ec; [|apply nth_error_None in Ec; lia].
-  destruct (curves_exact w w_pos hu cu Wh Wc g Hd Hne Hcov Hgap i T hh hc hn ET Eh Ec En) as [_ [_ [_ [A B]]]].
+  destruct (curves_exact w 0 z_le w_pos hu cu hu cu (nearv_refl hu) (nearv_refl cu) Wh Wc g Hd Hne Hcov Hgap i T hh hc hn ET Eh Ec En) as [_ [_ [_ [A B]]]].
   split; [|exact B]. rewrite A. unfold U, Dnet, p. lra.
 Qed.
 
@@ -90,7 +91,7 @@ Qed.
 Theorem site_cascade_ends : site_Qh w hu cu g - site_Qc w hu cu g == duty hu - duty cu.
 Proof.
   rewrite site_Qh_eq, site_Qc_eq.
-  pose proof (Qc_balance w w_pos hu cu Wh Wc g Hd Hne Hcov Hgap) as B. fold p in B. lra.
+  pose proof (Qc_balance w 0 z_le w_pos hu cu hu cu (nearv_refl hu) (nearv_refl cu) Wh Wc g Hd Hne Hcov Hgap) as B. fold p in B. lra.
 Qed.
 
 Lemma In_h_row x : In x h -> exists i T, nth_error (pT p) i = Some T /\ nth_error h i = Some x.
